@@ -7,7 +7,8 @@
 (*         Motorola S-record, Intel HEX 8/16/32, MOS Technology, Tektronix, Atmel generic, C array;*)
 (*         TI-DSK and Mico8 structurally only (no public checksum definition at hand offline).     *)
 (* Part 2  Selected(case): what must come out, straight from the manual (doc/utility-programs.md): *)
-(*         -f filter, -segment, -r window, -a relative, -R relocation, file offset, -m lanes.      *)
+(*         -f filter, -segment, -r window, -a relative, -R relocation, -m lanes, SEVERAL SOURCE    *)
+(*         FILES per call with a per-file "name(offset)" suffix.                                   *)
 (* Part 3  Verdict(case): every line valid, file structure valid, Decode(lines) = Selected(case).  *)
 (* Part 4  OPERATIONAL MODEL transcribed from p2hex.c ProcessFile()/main(): group prologue, line   *)
 (*         loop (TransLen, Intel-32 bank split, running ChkSum), epilogue, terminators.  Places    *)
@@ -225,13 +226,33 @@ Decode(fmt, lines, mul) == UNION {Pairs(r) : r \in Runs(fmt, lines, mul)}
 
 \* ================================================================================================
 \* Part 2: what must come out (declarative, from the manual)
-\* case c = [recs |-> <<[cpu, seg, gran, start, data]>>, fentry |-> -1 | n, o |-> options]
-\* options o = [fmt, l, M, rec5, sep, i, m, rel, reloc, rstart, rstop, e, avrlen, seg, filt, ofs, cfmt]
+\* case c = [recs |-> <<[cpu, seg, gran, start, data]>>, files |-> <<[n, sfx, ofs, nota, fentry]>>, o |-> options]
+\* options o = [fmt, l, M, rec5, sep, i, m, rel, reloc, rstart, rstop, e, avrlen, seg, filt, cfmt]
 \* ================================================================================================
+\* ---- the source files of one call ("BIND ... regards all command line arguments that do not start with +, - or /
+\*      as file specifications, of which the last one must designate the destination file"; P2HEX "uses the same
+\*      conventions for file names").  c.files lists the source arguments in command-line order; file i holds the
+\*      next c.files[i].n records of c.recs (c.recs = the records of all files, concatenated in that order):
+\*        sfx    TRUE: the argument is written "name(offset)", FALSE: just "name"
+\*        ofs    the number between the parentheses (0 when sfx = FALSE)
+\*        nota   how the renderer spells that number ("$" hex, "0x" hex, "dec"): no meaning for the expectation
+\*        fentry the address of the file's entry record, -1 if it has none
+\*      Manual: "By using an offset, it is possible to move a file's contents to an arbitrary position.  This offset
+\*      is simply appended to a file's name, surrounded with parentheses."  The offset belongs to THAT name: a file
+\*      named without one is not moved, whatever was written behind another name of the same call and wherever in
+\*      the list the names stand.
+FileIdx(c) == 1..Len(c.files)
+RECURSIVE FileBase(_, _)
+FileBase(c, i) == IF i <= 1 THEN 0 ELSE FileBase(c, i - 1) + c.files[i - 1].n       \* records before file i
+FileOf(c, k) == CHOOSE i \in FileIdx(c) : FileBase(c, i) < k /\ k <= FileBase(c, i) + c.files[i].n
+FileStart(c, k) == \E i \in FileIdx(c) : c.files[i].n > 0 /\ FileBase(c, i) + 1 = k   \* k = first record of a file
+FilesWellFormed(c) == /\ Len(c.files) >= 1 /\ FileBase(c, Len(c.files) + 1) = Len(c.recs)
+                      /\ \A i \in FileIdx(c) : c.files[i].n >= 0 /\ c.files[i].ofs >= 0 /\ (~c.files[i].sfx => c.files[i].ofs = 0)
+DeclOfs(f) == IF f.sfx THEN f.ofs ELSE 0
 FilterOK(o, cpu) == o.filt = <<>> \/ \E i \in 1..Len(o.filt) : o.filt[i] = cpu
 SelSeg(o) == IF o.seg = 0 THEN 1 ELSE o.seg                   \* -segment, default CODE
 RecIdx(c) == 1..Len(c.recs)
-RStart(c, k) == c.recs[k].start + c.o.ofs                     \* file(offset) is added to every address
+RStart(c, k) == c.recs[k].start + DeclOfs(c.files[FileOf(c, k)])   \* file(offset) is added to every address OF THAT FILE
 RUnits(c, k) == Len(c.recs[k].data) \div c.recs[k].gran
 Picked(c) == {k \in RecIdx(c) : FilterOK(c.o, c.recs[k].cpu) /\ c.recs[k].seg = SelSeg(c.o)}
 
@@ -257,7 +278,12 @@ RecPairs(c, k) ==
      ELSE {<<OutAddr(c, a), r.data[(a - s) * G + (m - 2) + 1]>> : a \in lo..hi}
 Selected(c) == IF Picked(c) = {} THEN {} ELSE UNION {RecPairs(c, k) : k \in Picked(c)}
 
-ExpEntry(c) == IF c.o.e # -1 THEN c.o.e ELSE c.fentry        \* -e overrides the code file's entry record
+\* -e overrides the code files' entry records ("If such a command line parameter is missing, P2HEX will search a
+\* corresponding entry in the code file"); several files with different entries: the manual does not say which one
+\* counts (Definite), the code takes the first one it meets (operational model)
+FileEntries(c) == {i \in FileIdx(c) : c.files[i].fentry # -1}
+ExpEntry(c) == IF c.o.e # -1 THEN c.o.e
+               ELSE IF FileEntries(c) = {} THEN -1 ELSE c.files[SetMin(FileEntries(c))].fentry
 
 \* largest key the format can carry (the manual: longer addresses are reported and truncated)
 FmtMaxKey(fmt, o) == CASE fmt \in {"INTEL", "MOS", "TEK"} -> 65535
@@ -304,6 +330,8 @@ DecodeMatches(c, runs) ==
 
 \* the case has a definite outcome under the manual
 Definite(c) ==
+  /\ FilesWellFormed(c)
+  /\ (c.o.e # -1 \/ Cardinality({c.files[i].fentry : i \in FileEntries(c)}) <= 1)
   /\ Picked(c) # {}
   /\ Cardinality(FmtSet(c)) = 1 /\ Cardinality(GranSet(c)) = 1
   /\ "NONE" \notin FmtSet(c)
@@ -410,7 +438,7 @@ Verdict(c, lines) ==
                                 \A e \in CDef(lines, "end", blk) : e = st + n \div TheGran(c) - 1]
 
 \* ================================================================================================
-\* Part 4: operational model of p2hex.c (one source file)
+\* Part 4: operational model of p2hex.c
 \* ================================================================================================
 \* Named deviations of the pinned code (each is a reproduced defect, see proposed_fixes/C06-*.md):
 \*  "MosRunningSum"        ChkSum += in the MOS line prologue is never reset: the sum runs over all lines so far
@@ -439,7 +467,17 @@ Verdict(c, lines) ==
 \*  "CarryMotRecType"  MotRecType never lowered again (`else MotRecType = 0` missing): wider records than needed,
 \*                     still valid and decoding right - not observable by the property
 \*  "CarryGrpLineLen"  GrpLineLen (incl. the S-record cap) kept from the previous group - not observable either
-CarryDevs == {"CarryFirstBank", "CarryRecCnt", "CarryMotRecType", "CarryGrpLineLen"}
+\*
+\* PER-ARGUMENT STATE.  main() hands every source argument to ProcessGroup(), which lets RemoveOffset() (toolutils.c)
+\* split "name(offset)" and store the number in the STATIC CurrOffset that the callback passes on to MeasureFile() /
+\* ProcessFile().  The list of source arguments is walked TWICE when a window end is automatic (StartAuto/StopAuto:
+\* MeasureFile walk, then ProcessFile walk) and once otherwise; CurrOffset lives across the arguments of a walk and
+\* from the first walk into the second, and is only right because RemoveOffset() begins with `*Offset = 0`.
+\*  "CarryOffset"      RemoveOffset() without that reset: an argument WITHOUT "(offset)" is handled with the offset
+\*                     of the argument handled before it - the previous name of the same walk or, for the first name
+\*                     of the ProcessFile walk, the last name of the MeasureFile walk
+\* The locals of ProcessFile() start from their initialisers again for every source file (AtFile).
+CarryDevs == {"CarryFirstBank", "CarryRecCnt", "CarryMotRecType", "CarryGrpLineLen", "CarryOffset"}
 PinnedDevs == {"MosRunningSum", "MosTerm4", "TekByteSums", "Intel32UnitBank", "MotoTypeUnrelocated",
                "Intel16NoRebase", "RangeOnlyCode", "LineSplitsUnits", "MotoLineOverflow"}
 
@@ -450,15 +488,25 @@ GrpLL(o, G, fmt, mt, D) ==
       a == IF "LineSplitsUnits" \in D THEN LL ELSE IF LL - (LL % G) = 0 THEN G ELSE LL - (LL % G)
   IN IF fmt = "MOTO" /\ "MotoLineOverflow" \notin D /\ a + 3 + mt > 255 THEN (252 - mt) - ((252 - mt) % G) ELSE a
 
+\* ---- ProcessGroup()/RemoveOffset(): the offset each walk hands to the file functions -------------------
+ArgOfs(f, cur, D) == IF f.sfx THEN f.ofs ELSE IF "CarryOffset" \in D THEN cur ELSE 0      \* `*Offset = 0;` first
+RECURSIVE CurrOfsAfter(_, _, _, _)        \* CurrOffset after the arguments 1..i of a walk that began with cur0
+CurrOfsAfter(c, i, cur0, D) == IF i <= 0 THEN cur0 ELSE ArgOfs(c.files[i], CurrOfsAfter(c, i - 1, cur0, D), D)
+MeasWalk(c) == c.o.rstart = -1 \/ c.o.rstop = -1                                         \* StartAuto || StopAuto
+MeasOfs(c, i, D) == CurrOfsAfter(c, i, 0, D)                      \* a static: 0 when the program starts
+ProcOfs(c, i, D) == CurrOfsAfter(c, i, IF MeasWalk(c) THEN CurrOfsAfter(c, Len(c.files), 0, D) ELSE 0, D)
+MStart(c, k, D) == c.recs[k].start + MeasOfs(c, FileOf(c, k), D)     \* MeasureFile(): Adr += Offset
+PStart(c, k, D) == c.recs[k].start + ProcOfs(c, FileOf(c, k), D)     \* ProcessFile(): InpStart += Offset
+
 \* window as main()/MeasureFile()/CMD_AdrRange compute it for segment S
 MeasSegs(o) == IF o.seg # 0 THEN {o.seg} ELSE {1, 2}
 Meas(c, S) == {k \in RecIdx(c) : FilterOK(c.o, c.recs[k].cpu) /\ c.recs[k].seg \in MeasSegs(c.o) /\ c.recs[k].seg = S}
 DefStop(S) == IF S = 2 THEN 8191 ELSE 32767
 CodeWinLo(c, S, D) ==
-  IF c.o.rstart = -1 THEN (IF Meas(c, S) = {} THEN BigAddr ELSE SetMin({RStart(c, k) : k \in Meas(c, S)}))
+  IF c.o.rstart = -1 THEN (IF Meas(c, S) = {} THEN BigAddr ELSE SetMin({MStart(c, k, D) : k \in Meas(c, S)}))
   ELSE IF S = 1 \/ ("RangeOnlyCode" \notin D /\ S = c.o.seg) THEN c.o.rstart ELSE 0
 CodeWinHi(c, S, D) ==
-  IF c.o.rstop = -1 THEN (IF Meas(c, S) = {} THEN 0 ELSE SetMax({RStart(c, k) + RUnits(c, k) - 1 : k \in Meas(c, S)}))
+  IF c.o.rstop = -1 THEN (IF Meas(c, S) = {} THEN 0 ELSE SetMax({MStart(c, k, D) + RUnits(c, k) - 1 : k \in Meas(c, S)}))
   ELSE IF S = 1 \/ ("RangeOnlyCode" \notin D /\ S = c.o.seg) THEN c.o.rstop ELSE DefStop(S)
 \* main(): "automatic range setting failed" -> exit 1, nothing written
 AutoFails(c, D) == (c.o.rstart = -1 \/ c.o.rstop = -1) /\ CodeWinLo(c, SelSeg(c.o), D) > CodeWinHi(c, SelSeg(c.o), D)
@@ -482,13 +530,16 @@ IntelExt(ty, hseg) == ILine(<<2, 0, 0, ty, Hi(hseg), Lo(hseg), (256 - ((2 + ty +
 \*       GrpLineLen (ChkSum is st.chk); values as initialised at the top of ProcessFile()
 InitLoc == [fb |-> FALSE, io |-> 0, hseg |-> 0, mt |-> 0, reccnt |-> 0, gll |-> 0]
 InitSt == [out |-> <<>>, chk |-> 0, occ |-> {}, maxMoto |-> 0, maxIntel |-> 0, ncb |-> 0, ndata |-> 0, loc |-> InitLoc]
+\* ProcessFile() is entered anew for every source file: its locals start from their initialisers again; the statics
+\* of main() (FormatOccured, MaxMoto, MaxIntel, MOSRecCnt, NumCBlocks, EntryAdr) go on across the files
+AtFile(c, k, st) == IF FileStart(c, k) THEN [st EXCEPT !.loc = InitLoc] ELSE st
 
 \* --- group prologue ("Kopf einer Datenzeilengruppe") -------------------------------------------------
 \* g = group state: es ErgStart (already relative/relocated), el ErgLen in bytes, pos = bytes consumed,
 \*     stop = ErgStop (NOT relocated, as in the code), io IntOffset, fb FirstBank, mt MotRecType
 Scale(c, G) == IF c.o.m < 2 THEN G ELSE 1
 GroupOfL(c, k, loc, D) ==
-  LET r == c.recs[k]  G == r.gran  S == r.seg  s == RStart(c, k)
+  LET r == c.recs[k]  G == r.gran  S == r.seg  s == PStart(c, k, D)
       lo == CodeWinLo(c, S, D)  hi == CodeWinHi(c, S, D)
       es0 == Max2(lo, s)  stop == Min2(hi, s + RUnits(c, k) - 1)
   IN IF ~(FilterOK(c.o, r.cpu) /\ S \in ValidSegs(c.o, FmtOf(c, k))) THEN [doit |-> FALSE] ELSE
@@ -686,7 +737,7 @@ Finish(c, st, D) ==
   IN [st EXCEPT !.out = st.out \o moto \o istart \o ieof \o mos \o dsk \o cc]
 
 RECURSIVE Groups(_, _, _, _)
-Groups(c, k, st, D) == IF k > Len(c.recs) THEN st ELSE Groups(c, k + 1, Group(c, k, st, D), D)
+Groups(c, k, st, D) == IF k > Len(c.recs) THEN st ELSE Groups(c, k + 1, Group(c, k, AtFile(c, k, st), D), D)
 
 \* the whole text p2hex writes for case c (<<>> if it stops with "automatic range setting failed")
 Emit(c, D) == IF AutoFails(c, D) THEN <<>> ELSE Finish(c, Groups(c, 1, InitSt, D), D).out
